@@ -93,16 +93,40 @@ func runDeterminism(id, tier string, runs int) int {
 			go func(w int) {
 				defer wg.Done()
 				out := filepath.Join(scratch, fmt.Sprintf("d%d.%d.jsonl", ci, w))
-				cfg := core.WorkerConfig{Mode: "range", Property: id, Tier: tier, Seed: 1, Start: w, Stride: c.workers, End: runs, Out: out}
-				cmd, _ := b.workerCmd(cfg, filepath.Join(scratch, fmt.Sprintf("d%d.%d.cfg", ci, w)), memLimit(b))
-				for i, e := range cmd.Env {
-					if strings.HasPrefix(e, "GOMAXPROCS=") {
-						cmd.Env[i] = "GOMAXPROCS=" + c.procs
+				inflight := filepath.Join(scratch, fmt.Sprintf("d%d.%d.inflight", ci, w))
+				// A run that kills the worker (panic on a goroutine of the library)
+				// is part of the picture: it is recorded as "died:<signature>" and
+				// the stripe goes on behind it, as in check.
+				for start := w; start < runs; {
+					os.Remove(inflight)
+					cfg := core.WorkerConfig{Mode: "range", Property: id, Tier: tier, Seed: 1, Start: start, Stride: c.workers, End: runs, Out: out, Inflight: inflight}
+					cmd, _ := b.workerCmd(cfg, filepath.Join(scratch, fmt.Sprintf("d%d.%d.cfg", ci, w)), memLimit(b))
+					for i, e := range cmd.Env {
+						if strings.HasPrefix(e, "GOMAXPROCS=") {
+							cmd.Env[i] = "GOMAXPROCS=" + c.procs
+						}
 					}
+					var se bytes.Buffer
+					cmd.Stdout = &se
+					cmd.Stderr = &se
+					runErr := cmd.Run()
+					if runErr == nil {
+						break
+					}
+					raw, ierr := os.ReadFile(inflight)
+					if ierr != nil {
+						break
+					}
+					var inf2 core.Inflight
+					if json.Unmarshal(raw, &inf2) != nil || inf2.Run < start {
+						break
+					}
+					sig, _ := classifyDeath(id, runErr, se.String(), core.Info{})
+					mu.Lock()
+					results[ci][inf2.Run] = "died:" + sig
+					mu.Unlock()
+					start = inf2.Run + c.workers
 				}
-				var se bytes.Buffer
-				cmd.Stderr = &se
-				cmd.Run()
 				mu.Lock()
 				readRecords(out, func(r core.Record) { results[ci][r.Run] = r.Outcome.LogHash })
 				mu.Unlock()
